@@ -48,17 +48,18 @@ type step struct {
 }
 
 type runner struct {
-	plan  Plan
-	w     *world
-	rng   *rand.Rand // nil: planned forgeries
-	maxF  int
-	done  map[string]bool // at.f already forged
-	next  int             // next planned forgery
-	lines []line
-	steps []step
-	sent  bool // SendJoin was called
-	made  bool // MakeJoin was called
-	quiet bool // the adversary leaves the rest of the run alone (the retry)
+	plan      Plan
+	w         *world
+	rng       *rand.Rand // nil: planned forgeries
+	maxF      int
+	done      map[string]bool // at.f already forged
+	next      int             // next planned forgery
+	lines     []line
+	steps     []step
+	sent      bool // SendJoin was called
+	made      bool // MakeJoin was called
+	quiet     bool // the adversary leaves the rest of the run alone (the retry)
+	unreached string
 }
 
 func (r *runner) log(a string, kv ...interface{}) {
@@ -883,7 +884,8 @@ func runPlan(p Plan, rng *rand.Rand, maxF int) *runner {
 		panic("c15: unknown flow " + p.Flow)
 	}
 	if rng == nil && r.next != len(p.Forges) {
-		panic(fmt.Sprintf("c15: planned forgery %+v was never reached", p.Forges[r.next]))
+		// the real run left the path the specification derived: the comparison names the step where it did
+		r.unreached = fmt.Sprintf("planned forgery %+v was never reached", p.Forges[r.next])
 	}
 	forges := r.plan.Forges
 	if forges == nil {
